@@ -9,12 +9,19 @@ checks/stages_mag.py, so checks/magpipe.py can use this module for every magneti
         normalizer of the tabulated reference group (type III) or the anti-translation conjugator (type IV), and the comparison
         with the tabulated magnetic operations.  No oracle parameter.  Compared: outcome / error kind, uni_number, construct type,
         |XSG|, |FSG|, the type-II flag, the linear part of the transformation exactly, its origin shift modulo 1 to 1e-9.
-        Requests with `row u` (table rows and their re-descriptions): the model also evaluates the executable soundness
-        statement on its own answer (`row 1`); a `row 0` is reported as a disagreement of the table theorem.
+        Requests with `row u` (table rows `t<u>` — all 1651 in every tier — and their re-based versions with the translations
+        reduced into [0,1) `-re0` / (-0.5,0.5] `-re1`; thorough: both for every number plus unreduced `-raw` rows; quick: a
+        seed-dependent third / sixth): the model also evaluates the executable soundness statement on its own answer
+        (`row 1`); a `row 0` is reported as a disagreement of the table theorem.  The fragility band (three evaluations of the
+        model) shares one computation of the normalizer of the tabulated reference group (see DriverMagId.lean).
   s6m   StandardizedMagneticCell::new.  Oracle parameters taken from the implementation's output of the same line, checked
         by the model: `rot` (rotation_matrix of the QR step) and `impltlinear` (monoclinic tie), as for stage S6.
         Compared: outcome / error kind, transformation (linear exact, origin shifts 1e-9), site mapping, species, lattices
-        (1e-9 of the largest entry), positions modulo 1 and moments to 1e-8, rotation-matrix sanity numbers.
+        (1e-9 of the largest entry), positions modulo 1 and moments to 1e-8, rotation-matrix sanity numbers.  The model
+        mirrors the repair 1c2f2a9 (type IV: positions averaged over the anti-translation before the reference
+        standardization) and reports, per case, the hypotheses and conclusions of the stage theorems (`hyp`, `mhyp`, `ahyp`
+        segments: reynolds_positions, reynolds_moments_exact, mag_positions_invariant); a case where hypotheses hold and a
+        conclusion fails is reported as a broken model.
 Cases the model tags fragile (a translation difference within 1e-9 of epsilon, a rounding at ±1/2, a Wyckoff / Niggli /
 monoclinic threshold) are counted, not compared.
 
